@@ -5,7 +5,7 @@ from corr import correspond
 from flow import conclude
 import gen_structs as gs
 
-NAMES = ("a", "b", "c_1", "x-y", "d9", "A", "Z_", "7a", "q-")
+NAMES = ("a", "b", "c_1", "x-y", "d9", "A", "Z_", "7a", "q-", "-t", "-1", "_", "0")
 
 
 def run(ctx):
